@@ -43,8 +43,8 @@ class Fam:
 def _normfit(p):
     r = p["sigma_norm"] ** 2 / p["mu_norm"] ** 2
     s = np.sqrt(np.log(1 + r))
-    scale = p["mu_norm"] / np.sqrt(1 + r)
-    return (s, 0, scale)
+    mu = np.log(p["mu_norm"] / np.sqrt(1 + r))   # documented: mu of the underlying normal
+    return (s, 0, np.exp(mu))                   # scipy's lognorm: scale = exp(mu)
 
 
 FAMILIES = {
